@@ -150,6 +150,27 @@ fn gen_cases(ctx: &Ctx, r: &mut Rng) -> Vec<Case> {
                     cases.push(Case { line, digits: d, kind: "decoration-1", addr: a, preload: preloadable(df) && r.chance(1, 2) });
                 }
             }
+            // every ASCII byte that is not a hex digit (control characters included) as a single decoration: none of
+            // them is a hex digit, so the digit sequence - and the verdict - must be that of the bare line
+            if !prefixed || !ctx.quick() {
+                for b in 1u8..=0x7F {
+                    if b == b'\n' || b.is_ascii_hexdigit() {
+                        continue;
+                    }
+                    for which in 0..3 {
+                        let (d, a) = base_digits(r, &mut used);
+                        let pos = match which {
+                            0 => 0,
+                            1 => d.len(),
+                            _ => 1 + r.below(d.len() as u64 - 1) as usize,
+                        };
+                        let mut line = d[..pos].to_vec();
+                        line.push(b);
+                        line.extend_from_slice(&d[pos..]);
+                        cases.push(Case { line, digits: d, kind: "decoration-ascii-byte", addr: a, preload: preloadable(df) && r.chance(1, 2) });
+                    }
+                }
+            }
             // letter case and multi-decoration
             let nmulti = ctx.n(20, 400);
             for _ in 0..nmulti {
